@@ -279,6 +279,11 @@ func (x *X) FailSite(clause string, tags []string, site string, format string, a
 type ExploreOpts struct {
 	ShardDepth int    // number of leading choice points hashed for sharding (default 1)
 	Bound      string // description of the bound explored
+	// Cold: the family concerns process-start state (lazy initialisation): each worker runs the body
+	// exactly once, as early as the check calls it, with the first choice fixed to its shard number;
+	// a violation cannot be reproduced in the same process, so it is not re-confirmed there (the
+	// replay, in a fresh process, re-runs it cold).
+	Cold bool
 }
 
 // Explore enumerates every choice sequence of body.
@@ -288,7 +293,11 @@ func (x *X) Explore(family string, opts ExploreOpts, body func(c *Chooser)) {
 			return
 		}
 		x.curFamily = family
-		for i := 0; i < 3; i++ {
+		n := 3
+		if opts.Cold {
+			n = 1
+		}
+		for i := 0; i < n; i++ {
 			c := &Chooser{path: append([]int{}, x.replay.Path...), lim: make([]int, len(x.replay.Path)), tracing: true, fixed: true}
 			v, _ := x.runOnce(c, body)
 			if v != nil {
@@ -309,6 +318,33 @@ func (x *X) Explore(family string, opts ExploreOpts, body func(c *Chooser)) {
 	if fs == nil {
 		fs = &FamilyStat{Exhaustive: true, Bound: opts.Bound}
 		x.Families[family] = fs
+	}
+	if opts.Cold {
+		c := &Chooser{path: []int{x.Shard}, lim: []int{0}, tracing: true}
+		v, _ := x.runOnce(c, body)
+		fs.Runs++
+		x.Evaluations++
+		if c.pos > fs.MaxDepth {
+			fs.MaxDepth = c.pos
+		}
+		if v != nil {
+			v.Path = append([]int{}, c.path[:c.pos]...)
+			v.Trace = c.trace
+			if x.outDir != "" {
+				os.MkdirAll(x.outDir, 0o755)
+				name := filepath.Join(x.outDir, fmt.Sprintf("%s-%s-s%d-%d.replay.json", x.Prop, sanitize(family), x.Shard, len(x.Violations)+1))
+				v.File = name
+				b, _ := json.MarshalIndent(v, "", " ")
+				os.WriteFile(name, b, 0o644)
+			}
+			x.Violations = append(x.Violations, *v)
+			fs.Exhaustive = false
+			fs.Cap = "stopped after violations"
+			panic(stopAll{})
+		} else if len(x.Samples) < 64 {
+			x.Samples = append(x.Samples, map[string]interface{}{"family": family, "execution": fs.Runs, "choices": append([]int{}, c.path[:c.pos]...), "steps": c.trace})
+		}
+		return
 	}
 	var path []int
 	var lim []int
